@@ -59,10 +59,11 @@ def targets(ctx):
         d = guard("to_dict_for_source", m0.to_dict)
         return guard("from_dict", cls().from_dict, json.loads(json.dumps(d)))
 
+    _mode = ["sow"]
+
     def state(m, mi):
-        info = BPInfo.of(type(m))
         b = guard("bytes", bytes, m)
-        snap = norm(schema, mi, guard("snapshot", snap_bp, schema, mi, m))
+        snap = norm(schema, mi, guard("snapshot", snap_bp, schema, mi, m, _mode[0]))
         return b, snap
 
     def is_set_vec(m):
@@ -171,6 +172,9 @@ def targets(ctx):
         name, tree = case["msg"], case["tree"]
         mi = schema.msg(f"ks.{name}")
         stats = {"raised": 0}
+        # a message filled in place through lazily created members has content without the intermediate presence flag
+        # (C06's known finding); its copies obtained through the wire do have the flag: presence = flag OR content there
+        _mode[0] = "sow_or_content" if case["source"] == "lazy" else "sow"
         out = []
         soft = []  # is_set flips: recorded, but the history continues behind them
         try:
